@@ -494,6 +494,8 @@ func C03(c *core.Ctx) {
 
 	// single-bit sweep: every bit of a genuine response of each shape must be authenticated
 	c03BitSweep(c)
+	// histories with a failed chip authentication in the middle (the session is re-keyed / abandoned there)
+	c03AfterFailedCA(c)
 }
 
 // c03BitSweep flips every single bit of a genuine protected response (with and without data,
@@ -574,6 +576,46 @@ func c03BitSweep(c *core.Ctx) {
 		}
 	}
 	c.Extra["outer_status_sweep"] = sweeps
+	// "... and the protected status equals the outer status": a response WITHOUT a protected status has none that could
+	// equal anything. Such a response cannot be made from a genuine one (the MAC covers DO'99'); a counterpart holding
+	// the session keys can send it, and then the outer status is the link's to choose: must be refused.
+	noStatus := 0
+	for _, su := range sim.Suites {
+		for _, sh := range []shape{{1, 0x9000}, {0, 0x9000}, {2, 0x6A82}} {
+			for _, osw := range []int{0x9000, 0x6282, 0x6A82, 0x6300} {
+				rp := newSmReplay(su, c.Rand.Int63(), nil)
+				rp.cur.data, rp.cur.sw = sh.data, sh.sw
+				rp.s.Link.Script = func(idx int, cmd []byte, l *link.Link) link.Action {
+					return link.Action{Name: "no-do99", Respond: func(g []byte, l *link.Link) []byte {
+						dos, ok := splitDOs(g[:len(g)-2])
+						if !ok {
+							return g
+						}
+						var kept []byte
+						for _, d := range dos {
+							if d[0] != 0x99 && d[0] != 0x8E {
+								kept = append(kept, d...)
+							}
+						}
+						tr := rp.s.Chip.Truth()
+						out, err := chipsim.AuthenticateRaw(su.Cipher, tr.SM.KSmac, tr.SM.SSC, kept, uint16(osw))
+						if err != nil {
+							return g
+						}
+						return out
+					}}
+				}
+				ra, err := rp.s.Nfc.DoAPDU(iso7816.NewCApdu(0, 0xB0, 0, 0, nil, 256), "x")
+				noStatus++
+				c.Case(fmt.Sprintf("no-do99/%s/%d/%04X/%04X", su.Name, sh.data, sh.sw, osw), true)
+				if err == nil {
+					c.Violation("C03:accepts-response-without-protected-status", fmt.Sprintf("an authenticated response without DO'99' (%s, data id %d, chip status %04X) under the outer status %04X was delivered: data %x status %04X", su.Name, sh.data, sh.sw, osw, ra.Data, ra.Status),
+						map[string]any{"suite": su.Name, "outer_sw": osw, "data": sh.data, "sw": sh.sw})
+				}
+			}
+		}
+	}
+	c.Extra["responses_without_protected_status"] = noStatus
 }
 
 // smLongHistories is filled in by smtrace.go (recorded histories validated against Trace_SM).
